@@ -32,6 +32,7 @@ def run(ctx: Context) -> None:
     ctx.rule(finder_rules)
     ctx.rule(stateless_rule)
     ctx.rule(fresh_batch_rule)
+    ctx.rule(budget_plumbing)
 
 
 def sample_rules(ctx: Context) -> None:
@@ -430,3 +431,14 @@ def fresh_batch_rule(ctx: Context) -> None:
                       f"{c.name}.sample_batch returns `{src(r.value)[:60]}`, which may share storage with `self.{sorted(kept)[0] if kept else ''}` kept from an earlier call: the redraw of sample() "
                       "then overwrites the first draw (points that were not repeats change) and the batch returned by the previous call", m, r)
     ctx.floor("D8", "concrete sample_batch bodies", n_bodies, 7)
+
+
+def budget_plumbing(ctx: Context) -> None:
+    """The pass budget the user asked for is the budget sample() uses: every sampler constructor forwards its arguments to the parameters of the same
+    name of the base-class constructor (a name passed positionally that lands on a differently named parameter is misrouted)."""
+    from ..util import misrouted_super_arguments
+    n, bad = misrouted_super_arguments(ctx.prog, "BaseSampler")
+    for m, call, why in bad:
+        ctx.fail("D9.constructor-forwarding", f"{m.qualname.split(':')[1]}:{' '.join(src(call).split())[:50]}", f"{why}: the option the user set is ignored / another one is overwritten", m, call)
+    ctx.ok("D9.constructor-forwarding", "samplers:super-init", f"{n} constructor forwarding call(s) in the sampler hierarchy: every name lands on the parameter of the same name")
+    ctx.floor("D9", "constructor forwarding calls in the sampler hierarchy", n, 6)
